@@ -250,12 +250,25 @@ fn none<K>(_: &K) -> Value {
 
 pub fn run_backend<B: Backend>(rec: &mut Recorder, thorough: bool, seed: u64) {
     let mut rng = Prng::new(seed, &format!("c08-{}", B::NAME));
+    keytext_relations::<B>(rec, &mut rng);
     let fam = crate::eval::fam_against(B::NAME);
     let generic = generic_offers(&mut rng, thorough);
     let pairs = keys::signing_pairs::<B>(&mut rng, if thorough { 40 } else { 6 });
     // ---- local
     let mut offers = Vec::new();
     mutate(&mut offers, "valid", &rng.bytes(32), &mut rng);
+    // every value of the last byte (32-byte keys are opaque: no byte is whitespace, terminator or padding), and a key followed by
+    // whitespace or NUL bytes
+    for last in 0..=255u8 {
+        let mut k = rng.bytes(32);
+        k[31] = last;
+        offers.push(Offer { cls: "valid-last-byte", bytes: k });
+    }
+    for tail in [&b"\n"[..], b" ", b"\r\n", b"\0", b"\t  "] {
+        let mut k = rng.bytes(32);
+        k.extend_from_slice(tail);
+        offers.push(Offer { cls: "key-then-whitespace", bytes: k });
+    }
     for o in generic.iter().chain(offers.iter()) {
         observe::<B, Local>(rec, "local", o, &|k| {
             // a local key decrypts what it (and its clone, and its reparse) encrypted
@@ -431,6 +444,17 @@ pub fn run_backend<B: Backend>(rec: &mut Recorder, thorough: bool, seed: u64) {
             }
         }
     }
+    // a valid secret key behind leading zero bytes, or followed by zero bytes (a big-integer reader would not notice)
+    for p in pairs.iter().take(2) {
+        for pad in [1usize, 16, 80] {
+            let mut z = vec![0u8; pad];
+            z.extend_from_slice(&p.secret);
+            offers.push(Offer { cls: "zero-padded-front", bytes: z });
+            let mut t = p.secret.clone();
+            t.extend(vec![0u8; pad]);
+            offers.push(Offer { cls: "zero-padded-back", bytes: t });
+        }
+    }
     let sign_check = |k: &Key<B::V, Secret>| -> Value {
         // the derived public key is the public half and verifies what the secret key signs
         let pk = k.public_key();
@@ -459,6 +483,37 @@ pub fn run_backend<B: Backend>(rec: &mut Recorder, thorough: bool, seed: u64) {
         observe::<B, Secret>(rec, "secret", o, &sign_check);
         if o.cls != "random" && o.cls != "zero" && o.cls != "ones" {
             observe::<B, PkeSecret>(rec, "pkesecret", o, &none);
+        }
+    }
+}
+
+/// KeyText values (any length parses) compare, order and hash as their bytes, whatever the two lengths are
+fn keytext_relations<B: Backend>(rec: &mut Recorder, rng: &mut Prng) {
+    use paseto_core::paserk::KeyText;
+    use std::hash::{Hash, Hasher};
+    let lens = [0usize, 1, 31, 32, 33, 64, 300];
+    let mut vals: Vec<Vec<u8>> = lens.iter().map(|&l| rng.bytes(l)).collect();
+    vals.push(vals[3].clone());
+    let mut pre = vals[5].clone();
+    pre.truncate(32);
+    vals.push(pre);
+    let hash = |k: &KeyText<B::V, Local>| {
+        let mut h = std::collections::hash_map::DefaultHasher::new();
+        k.hash(&mut h);
+        h.finish()
+    };
+    for a in &vals {
+        for b in &vals {
+            let (ka, kb) = (KeyText::<B::V, Local>::from_raw_bytes(a), KeyText::<B::V, Local>::from_raw_bytes(b));
+            let r = catch_unwind(AssertUnwindSafe(|| (ka == kb, ka.cmp(&kb) as i32, hash(&ka) == hash(&kb))));
+            let (eq, ord, heq, panic) = match r {
+                Ok((e, o, h)) => (e, o, h, false),
+                Err(_) => (false, 9, false, true),
+            };
+            let _ = heq;
+            // judged by Obs_Keys (KeyRel): equality, order and hash agreement are those of the two byte strings
+            rec.emit(json!({"fn":"keyrel","be":B::NAME,"ver":B::VER,"kind":"local","cls":"keytext-relation","len":a.len(),"bytes":a,"other":b,
+                "ok": !panic, "result": if panic {"panic"} else {"ok"}, "eq": eq, "ord": ord, "heq": heq}));
         }
     }
 }
